@@ -45,6 +45,8 @@ func files(ext string, helpers bool) map[string]string {
 	f["layouts/a/b/main"+ext] = `{{define "page"}}AB<{{template "title" .}}|{{template "content" .}}|{{template "h" .}}>{{end}}{{define "title"}}T-ab{{end}}{{define "content"}}C-ab{{end}}{{define "h"}}H-ab{{end}}`
 	f["views/b/c/v"+ext] = `{{define "content"}}C-view-b/c{{end}}`
 	f["views/c/v"+ext] = `{{define "content"}}C-view-c{{end}}{{define "title"}}T-view-c{{end}}`
+	// a view with a file that does not parse
+	f["views/bad/x"+ext] = `{{define "content"}}C-bad{{end}}{{if}}`
 	if helpers {
 		f["helpers/h"+ext] = `{{define "h"}}H[{{.}}]{{template "h2" .}}{{end}}`
 		f["helpers/sub/h2"+ext] = `{{define "h2"}}(h2){{end}}`
@@ -85,6 +87,7 @@ var requestPool = []Request{
 var nestedPool = []Request{
 	{Kind: "view", Layout: "a", View: "b/c"}, {Kind: "view", Layout: "a/b", View: "c"}, {Kind: "view", Layout: "a", View: "c"},
 	{Kind: "layout", Layout: "a"}, {Kind: "layout", Layout: "a/b"},
+	{Kind: "view", Layout: "default", View: "bad"},
 }
 
 // executor abstracts html/text templates.
@@ -274,6 +277,16 @@ func runSequence(cfg Config, reqs []Request) (outs []string, f *finding) {
 		for i, r := range reqs {
 			ex, err := p.do(r)
 			wantOut, wantNames := reference(cfg, r)
+			if strings.HasPrefix(wantOut, "REF-ERR:") {
+				// a template file of this request does not parse: the request fails - every time, and without
+				// consequences for the requests that follow
+				if err == nil {
+					f = &finding{"broken-template-accepted/" + r.Kind, "a failing template file is reported, not silently skipped", fmt.Sprintf("config %+v, requests %v: request %d %s succeeded although a file of it does not parse (%s)", cfg, reqs, i, r, wantOut)}
+					return
+				}
+				outs = append(outs, "ERROR")
+				continue
+			}
 			if err != nil {
 				outs = append(outs, "ERROR")
 				f = &finding{"request-failed/" + r.Kind, "asking (again) gives equivalent templates; the result is the same with caching on or off", fmt.Sprintf("config %+v, requests %v: request %d %s failed: %v", cfg, reqs, i, r, err)}
@@ -340,6 +353,9 @@ func faultThenRetry(cfg Config, r Request, k int) (calls int, f *finding) {
 	})
 	if f == nil && len(res.Panics) > 0 {
 		f = &finding{"panic", "no call crashes the process", res.Panics[0].Value}
+	}
+	if f == nil && (res.Deadlock || res.Horizon) {
+		f = &finding{"retry-blocks-forever/" + r.Kind, "asking twice gives equivalent templates (every call returns)", fmt.Sprintf("config %+v %s: after a failure of filespace call #%d during the first request, the same request on the healthy filespace never returned (blocked: %v)", cfg, r, k, res.Blocked)}
 	}
 	return
 }
@@ -613,7 +629,7 @@ func replay(wj json.RawMessage) (*fw.Violation, error) {
 
 func init() {
 	fw.Register(&fw.Check{ID: "C19", Level: "model_checking",
-		Rule: "sequential: every sequence of <=3 requests from {Base, Layout(default|alt|''), View(default,v1|v2), View(alt,v1), View('',v2), View(default,missing)} x {HTML, text provider} x {helpers present, absent} x {cached, uncached}, plus all sequences of <=2 requests over nested names (layouts a and a/b, views b/c and c: joined names coincide), each result rendered and compared (output of template 'page' and the set of defined template names) with a reference built directly on html/template / text/template (helpers, then layout files, then view files), and cached vs uncached outputs compared position by position; fault: every failing filespace call (ReadFile/ReadDir/IsDir...) during a first request followed by the same request on the healthy filespace; concurrent: 36 programs of 2-3 threads issuing first requests (same view, different views, view + layout, base + view, two requests per thread) under every schedule with <= bound preemptions with a happens-before state cache, callers' renderings compared with the reference and the race oracle applied to the providers' cache maps and fields. states = distinct schedule traces (concurrent part)",
+		Rule: "sequential: every sequence of <=3 requests from {Base, Layout(default|alt|''), View(default,v1|v2), View(alt,v1), View('',v2), View(default,missing)} x {HTML, text provider} x {helpers present, absent} x {cached, uncached}, plus all sequences of <=2 requests over nested names (layouts a and a/b, views b/c and c: joined names coincide) and a view with a file that does not parse (fails every time, later requests unaffected), each result rendered and compared (output of template 'page' and the set of defined template names) with a reference built directly on html/template / text/template (helpers, then layout files, then view files), and cached vs uncached outputs compared position by position; fault: every failing filespace call (ReadFile/ReadDir/IsDir...) during a first request followed by the same request on the healthy filespace; concurrent: 36 programs of 2-3 threads issuing first requests (same view, different views, view + layout, base + view, two requests per thread) under every schedule with <= bound preemptions with a happens-before state cache, callers' renderings compared with the reference and the race oracle applied to the providers' cache maps and fields. states = distinct schedule traces (concurrent part)",
 		Run: run, Replay: replay,
 		Assumptions: []string{"one file set with overlapping definitions on every layer; walk order = sorted paths", "2-3 threads; bounds as reported; a racing map read/write is what makes Go abort with 'concurrent map read and map write', which the race oracle decides deterministically"}})
 }
